@@ -345,7 +345,11 @@ pub fn send_to_gui(message: &str) {
 pub fn read_from_gui() -> String {
     let stdin = io::stdin();
     let mut buffer = String::new();
-    stdin.lock().read_line(&mut buffer).unwrap();
+    let bytes_read = stdin.lock().read_line(&mut buffer).unwrap();
+    if bytes_read == 0 {
+        // end of input, the GUI is gone and no further command can arrive
+        process::exit(0);
+    }
     buffer = clean_input(&buffer);
     info!("ENGINE << {}", buffer);
     buffer
